@@ -666,9 +666,12 @@ def select__range_expression(self: XPathToken, context: ta.ContextType = None) -
 ###
 # Numerical operators
 @method(infix('idiv', bp=45))
-def evaluate__idiv_operator(self: XPathToken, context: ta.ContextType = None) -> int:
+def evaluate__idiv_operator(self: XPathToken, context: ta.ContextType = None) \
+        -> ta.OneOrEmpty[int]:
     op1, op2 = self.get_operands(context)
     if op1 is None or op2 is None:
+        if isinstance(context, XPathSchemaContext):
+            return []  # the static evaluation on the schema selects no node for this operand
         raise self.error('XPST0005')
 
     try:
